@@ -11,6 +11,12 @@
 
   `cleanupFirst = true` is the code before the repair F21: the module clean-up ran before the entity was removed and the
   setter did not look again.
+
+  The components of an entity follow the same protocol (F24): Session.RemoveEntity, then
+  EntityComponentStore.DeleteByEntityID on the owner's side; Session.EntityByID, EntityComponentStore.Add,
+  Session.EntityByID again (gone -> EntityComponentStore.Delete and refused) on the adder's side.  The one difference is
+  that `Add` refuses a component that is already there (`refuseDup = true`): the adder is then answered a conflict
+  without storing or looking again.  `action` reads "the module / the store holds something for the entity".
 -/
 namespace Hagall.Attach
 
@@ -33,7 +39,7 @@ deriving Repr, DecidableEq, Inhabited
 
 def St.set (s : St) (c : Nat) (p : SPC) : St := { s with setter := fun x => if x = c then p else s.setter x }
 
-def step (cleanupFirst : Bool) (s : St) : Move → St
+def step (cleanupFirst refuseDup : Bool) (s : St) : Move → St
   | .owner =>
     if cleanupFirst then
       match s.owner with
@@ -48,9 +54,11 @@ def step (cleanupFirst : Bool) (s : St) : Move → St
   | .setter c =>
     match s.setter c with
     | .idle => if s.there then s.set c .checked else s
-    | .checked => if cleanupFirst then ({ s with action := true } : St).set c .idle else ({ s with action := true } : St).set c .stored
+    | .checked =>
+      if refuseDup && s.action then s.set c .idle else
+      if cleanupFirst then ({ s with action := true } : St).set c .idle else ({ s with action := true } : St).set c .stored
     | .stored => if s.there then s.set c .idle else ({ s with action := false } : St).set c .idle
 
-def run (cleanupFirst : Bool) (s : St) (ms : List Move) : St := ms.foldl (step cleanupFirst) s
+def run (cleanupFirst refuseDup : Bool) (s : St) (ms : List Move) : St := ms.foldl (step cleanupFirst refuseDup) s
 
 end Hagall.Attach
